@@ -541,6 +541,9 @@ func BatchFunc[T any](
 				if len(batch) > 0 {
 					// Time already elapsed, just deliver the batch now.
 					if time.Since(batchStart) > maxWait {
+						// A timer started for an earlier waiter may have expired but not been
+						// received yet; left alone it would later flush an empty batch.
+						stopTimer()
 						if !flush() {
 							return
 						}
